@@ -42,7 +42,7 @@ func pickCfg(r *engine.PRNG) world.InstCfg {
 	return world.Configs[r.Intn(len(world.Configs))]
 }
 
-var c07Families = []string{"F1", "F2", "F2", "F3", "F3", "F4", "F4", "F5", "F6", "FJ", "F8", "F9", "FN", "FM"}
+var c07Families = []string{"F1", "F2", "F2", "F3", "F3", "F4", "F4", "F5", "F6", "FJ", "F8", "F9", "FN", "FM", "FD"}
 
 // usableTypes lists the types of a family usable under cfg.
 func usableTypes(fam string, cfg world.InstCfg, includeBad bool) []string {
@@ -229,7 +229,7 @@ func C07SweepJobs(seed uint64, quick bool) []SweepJob {
 	if !quick {
 		cfgs = append(cfgs, world.InstCfg{ProtoTime: true}, world.InstCfg{Default: true})
 	}
-	fams := []string{"F2", "F3", "F4", "F5", "F6", "F9"}
+	fams := []string{"F2", "F3", "F4", "F5", "F6", "F9", "FD"}
 	if !quick {
 		fams = append(fams, "F1", "FJ", "F8")
 	}
